@@ -1,6 +1,7 @@
 import Resynth.Model.Cli
 import Resynth.Gen.Stdlib
 import Resynth.Spec.Pcap
+import Resynth.Spec.TcpDecode
 /-!
 # Line-protocol driver over the model: one request per line, one response per line.
 Mirrors /verif/harness (which runs the real Rust code) request for request.
@@ -223,6 +224,65 @@ def cmdProg (args : List String) : String :=
       s!"{fmtOutcome r.outcome} file={hexOrDash r.file} warnings={",".intercalate (r.warnings.map fmtLoc)} times={",".intercalate (r.emitted.map fun e => toString e.1)}"
   | _ => "bad-request"
 
+def optNat (s : String) : Option (Option Nat) := if s == "-" then some none else s.toNat?.map some
+
+/-- op encoding: `open` `cm:HEX:ACK01:FO:SEQ:ACK` `sm:…` `cs:HEX:SEQ:ACK` `ss:…` `crs:…` `srs:…`
+`chdr:N` `shdr:N` `ca:SEQ:ACK` `sa:…` `chole:N` `shole:N` `cclose` `sclose` `crst` `srst` -/
+def parseTcpOp (s : String) : Option TcpOp :=
+  match s.splitOn ":" with
+  | ["open"] => some .open
+  | ["cm", h, a, fo, sq, ak] => do some (.clientMessage (← ofHex h) (a == "1") (← fo.toNat?) (← optNat sq) (← optNat ak))
+  | ["sm", h, a, fo, sq, ak] => do some (.serverMessage (← ofHex h) (a == "1") (← fo.toNat?) (← optNat sq) (← optNat ak))
+  | ["cs", h, sq, ak] => do some (.clientSegment (← ofHex h) (← optNat sq) (← optNat ak))
+  | ["ss", h, sq, ak] => do some (.serverSegment (← ofHex h) (← optNat sq) (← optNat ak))
+  | ["crs", h, sq, ak] => do some (.clientRawSegment (← ofHex h) (← optNat sq) (← optNat ak))
+  | ["srs", h, sq, ak] => do some (.serverRawSegment (← ofHex h) (← optNat sq) (← optNat ak))
+  | ["chdr", n] => n.toNat?.map .clientHdr
+  | ["shdr", n] => n.toNat?.map .serverHdr
+  | ["ca", sq, ak] => do some (.clientAck (← optNat sq) (← optNat ak))
+  | ["sa", sq, ak] => do some (.serverAck (← optNat sq) (← optNat ak))
+  | ["chole", n] => n.toNat?.map .clientHole
+  | ["shole", n] => n.toNat?.map .serverHole
+  | ["cclose"] => some .clientClose
+  | ["sclose"] => some .serverClose
+  | ["crst"] => some .clientReset
+  | ["srst"] => some .serverReset
+  | _ => none
+
+def onWire : TcpOp → Bool
+  | .clientRawSegment .. | .serverRawSegment .. | .clientHdr _ | .serverHdr _ => false
+  | _ => true
+
+def wireExpected (c0 s0 : Nat) (pre : List TcpOp) : List TcpOp → List TcpStream.Segment
+  | [] => []
+  | op :: ops =>
+    (if onWire op then TcpStream.expectedOpsAux c0 s0 pre [op] else []) ++ wireExpected c0 s0 (pre ++ [op]) ops
+
+/-- `oracle tcp <clIp> <clPort> <c0> <s0> <ops,comma-separated> <ip datagrams hex, comma-separated>`:
+C04's spec evaluated on the segments the implementation really emitted -/
+def oracleTcp (args : List String) : String :=
+  match args with
+  | [clIp, clPort, c0, s0, ops, frames] =>
+    match clIp.toNat?, clPort.toNat?, c0.toNat?, s0.toNat?, (ops.splitOn ",").mapM parseTcpOp,
+          ((frames.splitOn ",").filter (fun x => x != "" && x != "-")).mapM ofHex with
+    | some clIp, some clPort, some c0, some s0, some ops, some frames =>
+      match frames.mapM (TcpStream.decodeSegment clIp clPort) with
+      | none => "bad undecodable-segment"
+      | some segs =>
+        let exp := wireExpected c0 s0 [] ops
+        if segs != exp then
+          let i := (List.range (max segs.length exp.length)).find? (fun i => segs[i]? != exp[i]?)
+          s!"bad segment-mismatch at {i.getD 0}: got {repr (segs[i.getD 0]?)} expected {repr (exp[i.getD 0]?)}"
+        else if TcpStream.noOverrides ops && ops.all onWire then
+          let evs := ops.flatMap TcpOp.events
+          let check (d : TcpStream.Dir) : Bool :=
+            let n := TcpStream.consumed d evs
+            n > 4096 || TcpStream.reassemble (TcpStream.isn c0 s0 d) d segs.reverse n == TcpStream.scriptCells d evs
+          if check .c2s && check .s2c then s!"ok {segs.length} reassembled" else "bad reassembly"
+        else s!"ok {segs.length}"
+    | _, _, _, _, _, _ => "bad-request"
+  | _ => "bad-request"
+
 /-- `oracle <name> <hex>…`: the executable Spec predicates, run on bytes the implementation produced -/
 def cmdOracle (args : List String) : String :=
   match args with
@@ -236,6 +296,7 @@ def cmdOracle (args : List String) : String :=
         if Spec.pcapWellFormed b then
           s!"ok {rs.length} {",".intercalate (rs.map fun r => s!"{r.time}:{r.len}")}"
         else "bad fields"
+  | "tcp" :: rest => oracleTcp rest
   | _ => "bad-request"
 
 def dispatch (line : String) : String :=
